@@ -1,6 +1,7 @@
 import PwVerif.Proofs.Exec
 import PwVerif.Proofs.ExecFin
 import PwVerif.Proofs.ExecFine
+import PwVerif.Proofs.ExecNest
 /-!
 # C01 — Automatic DAG execution is complete, ordered and correct under every schedule
 
@@ -318,6 +319,138 @@ example :
         fun t => (t.st 2, t.st 1, t.calls 2)) = some (.idle, .out, 0) := by
   decide
 
+/-! ## Nesting: children that are composites themselves (macros inside workflows inside …)
+
+`ExecNest.Tree` (built for C06): a child may be a composite with its own wiring, executor children and
+run loop, to any depth; actions are addressed by a path of child indices and every level runs the
+flat machine on its effective wiring (a composite child counts as out until its own loop has ended).
+The flat invariant holds at every level of every reachable tree (`nrun_inv`), so order and
+exactly-once hold at every depth. -/
+section Nest
+open PwVerif.ExecNest
+variable {E : Type}
+
+def NReachFresh (cfg : Cfg) (t : Tree E) : Prop :=
+  ∃ t₀ acts, NWF t₀ ∧ Fresh t₀ ∧ nrun cfg t₀ acts = some t
+
+theorem nreachFresh_inv {cfg : Cfg} {t : Tree E} (h : NReachFresh cfg t) : NInv cfg t ∧ NWF t := by
+  obtain ⟨t₀, acts, wf, hf, hr⟩ := h
+  exact nrun_inv cfg acts t₀ t wf (fresh_ninv cfg t₀ wf hf) hr
+
+/-- no function node anywhere in the tree raises -/
+def NoFaultsN : Tree E → Prop
+  | .leaf => True
+  | .comp d _ _ kids => (∀ i, kids i = .leaf → d.fails i = false) ∧ ∀ k, NoFaultsN (kids k)
+
+/-- every level's data graph is acyclic -/
+def RankedN : Tree E → Prop
+  | .leaf => True
+  | .comp d _ _ kids => (∃ rank : Nat → Nat, ∀ i j, j ∈ d.deps i → rank j < rank i) ∧ ∀ k, RankedN (kids k)
+
+/-- every child of every composite of the tree has executed exactly once and is done -/
+def AllOnce : Tree E → Prop
+  | .leaf => True
+  | .comp d _ s kids => (∀ i, d.member i → s.calls i = 1 ∧ s.st i = .done) ∧ ∀ k, d.member k → AllOnce (kids k)
+
+/-- ORDER at every depth, at every moment of every nested schedule: in whichever composite of the
+tree, a child has started only if every child it takes data from is done -/
+theorem C01_nest_order {cfg : Cfg} {t : Tree E} (h : NReachFresh cfg t) (p : List Nat) (d : Dag)
+    (exc : Nat → E) (s : S) (kids : Nat → Tree E) (hs : t.sub p = .comp d exc s kids) (i j : Nat)
+    (hi : s.st i ≠ .idle) (hj : j ∈ d.deps i) : s.st j = .done := by
+  have hinv := ninv_sub cfg t p (nreachFresh_inv h).1
+  rw [hs] at hinv
+  exact hinv.1.core.order i j hi hj
+
+theorem C01_nest_at_most_once {cfg : Cfg} {t : Tree E} (h : NReachFresh cfg t) (p : List Nat) (d : Dag)
+    (exc : Nat → E) (s : S) (kids : Nat → Tree E) (hs : t.sub p = .comp d exc s kids) (i : Nat) :
+    s.calls i ≤ 1 := by
+  have hinv := ninv_sub cfg t p (nreachFresh_inv h).1
+  rw [hs] at hinv
+  have := hinv.1.core.calls1 i
+  split at this <;> omega
+
+theorem nofaults_no_failed (t : Tree E) : NInv Cfg.repaired t → NoFaultsN t →
+    ∀ p i, ¬ FailedLeafAt t p i := by
+  induction t with
+  | leaf =>
+    intro _ _ p i ⟨d, exc, s, kids, hsub, _, _⟩
+    cases p <;> simp [Tree.sub] at hsub
+  | comp d exc s kids ih =>
+    intro hinv hnf p i hfl
+    cases p with
+    | nil =>
+      rw [failedLeafAt_nil] at hfl
+      have := hinv.1.core.failedFails i hfl.2
+      simp only [effDag, hfl.1] at this
+      rw [hnf.1 i hfl.1] at this
+      cases this
+    | cons k q =>
+      rw [failedLeafAt_cons] at hfl
+      exact ih k (hinv.2.1 k) (hnf.2 k) q i hfl
+
+/-- EXACTLY ONCE at every depth: when the outermost loop has ended and no function raises, every child
+of every composite in the tree — function nodes and nested composites alike — has executed exactly
+once and is done -/
+theorem C01_nest_once (t : Tree E) : NInv Cfg.repaired t → NWF t → NoFaultsN t → RankedN t →
+    t.over = true → AllOnce t := by
+  induction t with
+  | leaf => intro _ _ _ _ _; trivial
+  | comp d exc s kids ih =>
+    intro hinv wf hnf hrk ho
+    obtain ⟨hI, hK, hL⟩ := hinv
+    obtain ⟨rank, hrank⟩ := hrk.1
+    have hex := over_exited Cfg.repaired rfl _ s hI ho
+    have hnofail : ∀ i, s.st i ≠ .failed := by
+      intro i hi
+      have hf := hI.core.failedFails i hi
+      cases hk : kids i with
+      | leaf =>
+        simp only [effDag, hk] at hf
+        rw [hnf.1 i hk] at hf; cases hf
+      | comp d' exc' s' kids' =>
+        simp only [effDag, hk] at hf
+        have hov : (kids i).over = true := (hL i).2 (Or.inr hi)
+        have hinv' := hK i
+        rw [hk] at hov hinv'
+        obtain ⟨p, j, hfl⟩ := ((over_failed_iff Cfg.repaired rfl rfl _ d' exc' s' kids' rfl hinv' hov).1).mp hf
+        have hnf' := hnf.2 i
+        rw [hk] at hnf'
+        exact nofaults_no_failed _ hinv' hnf' p j hfl
+    have hdone := exit_all_done Cfg.repaired (effDag d kids) (wf_eff kids wf.1) s hI rank hrank hex hnofail
+    refine ⟨?_, ?_⟩
+    · intro i hm
+      have hd := hdone i hm
+      have := hI.core.calls1 i
+      simp [hd] at this
+      exact ⟨this, hd⟩
+    · intro k hm
+      have hd := hdone k hm
+      exact ih k (hK k) (wf.2 k) (hnf.2 k) (hrk.2 k) ((hL k).2 (Or.inl hd))
+
+/-- the same, stated for runs: any nested schedule from a fresh tree -/
+theorem C01_nest_once_reach {t : Tree E} (h : NReachFresh Cfg.repaired t) (hnf : NoFaultsN t)
+    (hrk : RankedN t) (ho : t.over = true) : AllOnce t :=
+  C01_nest_once t (nreachFresh_inv h).1 (nreachFresh_inv h).2 hnf hrk ho
+
+/-! non-vacuity: `0 → 1` where child 1 is itself a composite with one function node; a complete nested
+schedule ends with every child at both levels executed once and done -/
+def outerF : FinDag :=
+  { n := 2, slots := [[], [[0]]], down := [[1], []], starters := [0], onExec := [false, false], fails := [],
+    rank := [0, 1] }
+def innerF : FinDag :=
+  { n := 1, slots := [[]], down := [[]], starters := [0], onExec := [false], fails := [], rank := [0] }
+def nestT : Tree Unit := mkComp outerF.toDag (fun _ => ()) [(1, mkComp innerF.toDag (fun _ => ()) [])]
+def nestActs : List (List Nat × Act) :=
+  [([], .start), ([], .deliver), ([1], .start), ([1], .exit), ([], .complete 1), ([], .exit)]
+
+example : (nrun Cfg.repaired nestT nestActs).map (fun t => match t with
+    | .comp _ _ s kids => (t.over, s.st 0, s.st 1, s.calls 1,
+        match kids 1 with | .comp _ _ s' _ => (s'.st 0, s'.calls 0) | .leaf => (Exec.St.idle, 0))
+    | .leaf => (false, Exec.St.idle, Exec.St.idle, 0, (Exec.St.idle, 0)))
+    = some (true, .done, .done, 1, (.done, 1)) := by decide
+
+end Nest
+
 end PwVerif.C01
 
 #print axioms PwVerif.C01.C01_order
@@ -343,3 +476,7 @@ end PwVerif.C01
 #print axioms PwVerif.C01.C01_rerun_is_fresh
 #print axioms PwVerif.C01.C01_rerun
 #print axioms PwVerif.C01.C01_rerun_pinned_witness
+#print axioms PwVerif.C01.C01_nest_order
+#print axioms PwVerif.C01.C01_nest_at_most_once
+#print axioms PwVerif.C01.C01_nest_once
+#print axioms PwVerif.C01.C01_nest_once_reach
